@@ -85,7 +85,8 @@ func Go(ctx context.Context, conf ConnConfig, shell Shell) error {
 			VerifyConnection:   vfp,
 		}
 		transport.ForceAttemptHTTP2 = true
-		client.Transport = transport
+		/* Our own client, so as to not change the default one. */
+		client = &http.Client{Transport: transport}
 	}
 
 	/* Connect to CRS. */
